@@ -15,6 +15,9 @@ state.  The two backends must also return identical result kinds.
 Concurrency: pairs of inserts are issued from two threads at the same instant (same batch twice, overlapping
 batches, the halves that close a gap, an honest batch and an adjacent fork batch); a "par" event is accepted
 only if ONE of the two sequential orders of Store.tla's insert explains both results and the store afterwards.
+The same for any two operations (insert / remove_height / mark_as_sampled / update_sampling_metadata on the same
+heights: the syncer, the pruner and the sampler share the store) as "par2" events; the two threads leave a spinning
+start line within nanoseconds of each other and burn random head starts, so the runs scan the relative timings.
 """
 import json
 import vf
@@ -28,7 +31,8 @@ ENTRIES = {
                 "after every operation, and Trace_Store (TLC) accepts a history only if every event is the model's "
                 "action with an allowed result kind and an identical projection; result kinds must be identical "
                 "across the two backends. Pairs of inserts issued concurrently from two threads must be explained by one "
-                "of their two sequential orders (linearizability of insert).",
+                "of their two sequential orders; the same for any two operations on the same heights (insert, remove_height, "
+                "mark_as_sampled, update_sampling_metadata), several thousand pairs per run.",
         "design_ref": "7 C19, A.2",
         "note": "For a failing insert any error kind that applies to the batch is accepted (the statement says 'the "
                 "same error kinds', not a precedence among simultaneous errors); cross-backend equality of kinds is "
